@@ -28,6 +28,10 @@ def open_findings(prop):
 # --- preconditions over the pristine snapshots of a world -------------------
 
 
+def is_open(fid):
+    return any(f["id"] == fid and f["status"] == "open" for f in load())
+
+
 def _color_layer_names(twin):
     names = set()
     m = twin["lib"].get(UFO2FT + "colorLayerMapping")
